@@ -2,9 +2,9 @@ package bftworld
 
 import (
 	"fmt"
-	"os"
 	"sort"
 	"sync"
+	"sync/atomic"
 
 	"verifharness/mc"
 )
@@ -14,6 +14,16 @@ import (
 // nodes, instead of replaying the whole path. auditDepth > 0 additionally recomputes every
 // successor up to that depth by plain replay and aborts (harness error, exit 2) if the two
 // disagree on the state key.
+// cloneUntrusted is set when the clone-vs-replay audit fails: bft.BFT then carries state World.Clone does not copy
+// (the tree under test added a field). The search falls back to replaying whole paths, which needs no clone.
+var cloneUntrusted atomic.Bool
+
+func distrustClone(why string) {
+	if !cloneUntrusted.Swap(true) {
+		fmt.Printf("NOTE: the in-memory clone of the BFT world is not faithful for this tree (%s); Search 1 continues by replaying every path from the start (slower, no clone involved)\n", why)
+	}
+}
+
 type MemBFSConfig struct {
 	NC         NamedConfig
 	MaxDepth   int
@@ -68,10 +78,17 @@ func MemBFS(cfg MemBFSConfig) mc.BFSStats {
 		mc.ParallelFor(len(jobs), 0, cfg.Stop, func(i int) {
 			j := jobs[i]
 			parent := frontier[j.parent]
-			w := parent.w.Clone()
-			ok := w.RunRound(AllScenarios[j.op])
-			r := res{run: true, ok: ok}
 			path := append(append([]int{}, parent.path...), j.op)
+			var w *World
+			var ok bool
+			if cloneUntrusted.Load() {
+				// the clone of bft.BFT is known to be incomplete for the tree under test: plain replay of the whole path
+				w, ok = Replay(cfg.NC.Cfg, path, false)
+			} else {
+				w = parent.w.Clone()
+				ok = w.RunRound(AllScenarios[j.op])
+			}
+			r := res{run: true, ok: ok}
 			if ok {
 				if v := w.AgreementViol(cfg.NC.Name, path); v != nil {
 					// re-establish on a fresh world by plain replay before believing it
@@ -79,16 +96,23 @@ func MemBFS(cfg MemBFSConfig) mc.BFSStats {
 					if rok && rw.AgreementViol(cfg.NC.Name, path) != nil {
 						r.viol, r.ok = v, false
 					} else {
-						fmt.Fprintf(os.Stderr, "HARNESS ERROR: fork seen on a cloned world is not reproduced by replaying path %v\n", path)
-						os.Exit(2)
+						distrustClone(fmt.Sprintf("a fork seen on a cloned world is not reproduced by replaying path %v", path))
+						r.key, r.w = mc.Hash(rw.StateKey()), rw
+						r.ok = rok
 					}
 				} else {
 					r.key, r.w = mc.Hash(w.StateKey()), w
-					if depth < cfg.AuditDepth {
+					if depth < cfg.AuditDepth && !cloneUntrusted.Load() {
 						rw, rok := Replay(cfg.NC.Cfg, path, false)
 						if !rok || mc.Hash(rw.StateKey()) != r.key {
-							fmt.Fprintf(os.Stderr, "HARNESS ERROR: clone and replay disagree on path %v\n clone:  %s\n replay: %s\n", path, w.StateKey(), rw.StateKey())
-							os.Exit(2)
+							// bft.BFT carries state the clone does not know (a field added to the struct): not a verdict about
+							// the tree, and no reason to stop checking it. From here on every successor is computed by replay.
+							distrustClone(fmt.Sprintf("clone and replay disagree on path %v\n clone:  %s\n replay: %s", path, w.StateKey(), rw.StateKey()))
+							if !rok {
+								results[i] = res{run: true, ok: false}
+								return
+							}
+							r.key, r.w = mc.Hash(rw.StateKey()), rw
 						}
 						mu.Lock()
 						audited++
